@@ -53,4 +53,29 @@ theorem blwCore_known_width (b : RBox) (cb : Cb) (w : Rat) (hw : b.width = some 
     split_ifs <;> simp only [blwMargins] <;> exact ⟨_, _, _, rfl⟩
 
 
+/-- CSS 2.1 10.3.3 with a known width, as a function: the used `(margin-left, margin-right)` from the space
+`P` taken by paddings and borders, the width `w`, the containing block width and the computed margins
+(`none` = `auto`). -/
+def usedMargins (P w cbw : Rat) (ml mr : Len) : Rat × Rat :=
+  if P + w + ml.getD 0 + mr.getD 0 > cbw then (ml.getD 0, mr.getD 0)
+  else match ml, mr with
+    | none, none => ((cbw - P - w) / 2, (cbw - P - w) / 2)
+    | none, some r => (cbw - P - w - r, r)
+    | some l, none => (l, cbw - P - w - l)
+    | some l, some r => (l, r)
+
+theorem blwCore_used_margins (b : RBox) (cb : Cb) (w : Rat) (hw : b.width = some w) :
+    (blwCore b cb).marginLeft = some (usedMargins b.pb w cb.width b.marginLeft b.marginRight).1 ∧
+    (blwCore b cb).marginRight = some (usedMargins b.pb w cb.width b.marginLeft b.marginRight).2 ∧
+    (blwCore b cb).width = some w := by
+  rcases b with ⟨bw, bh, bml, bmr, bmt, bmb, pl, pr, bl, br, mnw, mxw, mnh, mxh, px, col⟩
+  simp only at hw
+  subst hw
+  rcases bml with _ | ml <;> rcases bmr with _ | mr <;>
+    simp only [blwCore, blwOverflow, blwOverConstrained, blwAutoWidth, blwMargins, Option.getD] <;>
+    split_ifs with h1 h2 <;> simp only [blwMargins] <;>
+    simp_all [usedMargins, RBox.pb] <;>
+    (split_ifs <;> first | exact ⟨rfl, rfl⟩ | (exfalso; linarith) | simp_all)
+
+
 end Wp.C13
